@@ -51,6 +51,21 @@ CHECKS = {
          "A scripted raw peer opens unidirectional streams of every kind (control with every <= 2-frame sequence over the 10-symbol control alphabet after/without SETTINGS, FIN/RESET/open; duplicate control/encoder/decoder; push; WebTransport-uni with multi-byte ids; grease; unknown; ended before/inside the type varint; all four varint forms) in tape-chosen arrival order and chunking, against a real h3 server and client whose own outgoing streams are starved of stream and send credit; the close code at the transport, the driver result, settings() and the GOAWAY effect (server accept()==None / client send_request => RemoteClosing, and not otherwise) must match the reference machine; RESET endings are judged against every prefix the endpoint may have seen.",
          "trusted: reference machine in src/props/c04.rs; push streams / CANCEL_PUSH are outside the statement (any outcome); simulated transport",
          "DESIGN.md section 3 C04"),
+ "C10": ("simnet",
+         "enumeration of (kind x limit x size-around-the-limit x SETTINGS timing) + property-based testing of random limits/sizes; oracle = reference size function sum(n+v+32) over the reference-decoded wire sections and the rule accept iff size <= limit",
+         "Eight kinds (request/response x headers/trailers x receive/send) against real h3 ends over simnet with a raw peer: sections built to an exact reference size sweep L-2..L+2 around 15 limits (0, 1, 41..43, 100, 167, 204, 205, 300, 1000, 65535, 2^32, 2^62-1, none) wherever a valid message of that size exists. Receive: accepted iff s <= L, refusal is HeaderTooBig, never a close, the next message is still served, a server answers 431 iff 42 <= the client's advertised limit. Send: the call succeeds iff s <= the limit in effect (peer's value once the driver processed SETTINGS, unlimited before), and the HEADERS frame under test is on the wire iff it was allowed, with exactly the reference size.",
+         "trusted: reference QPACK decoder and size function; valid requests below 167 bytes / responses below 42 do not exist in this generator, small boundaries are swept with trailers",
+         "DESIGN.md section 3 C10"),
+ "C12": ("simnet",
+         "property-based testing with a labelled-mutation catalogue (metamorphic: valid base + mutation with known effect) judged by a three-valued reference validator; exhaustive over single mutations x positions; send side by reference decoding of every HEADERS frame h3 writes",
+         "Field lists (8 valid base messages + up to 3 of 44 catalogue mutations at every position, and random lists over adversarial name/value alphabets) are judged by a validator that implements exactly the statement's clauses (MustAccept / MustReject / Unspecified) and compared with h3 at the unit level (Header::try_from + into_request_parts/into_response_parts/into_fields) and at the API (reference-encoded sections in several QPACK spellings injected by a raw peer into a real server/client: delivered, or StreamError H3_MESSAGE_ERROR on that stream, never a close, next message still delivered). Send side: for generated http::Request/Response/trailer maps every HEADERS frame on the wire is reference-decoded: pseudo fields first, each once, values as supplied, none in trailers.",
+         "trusted: src/reference/fields.rs (clauses the statement is silent about are Unspecified), reference QPACK codec",
+         "DESIGN.md section 3 C12"),
+ "C13": ("simnet",
+         "exhaustive enumeration of every builder configuration and of short SETTINGS payloads + property-based testing of longer ones; oracle = reference SETTINGS parser on h3's control stream and reference acceptance/interpretation of received payloads",
+         "All 1936 server and 88 client builder configurations are built over simnet: no panic, one well-formed SETTINGS frame first on the control stream, no duplicate / HTTP/2-reserved id, effective values equal to the configured ones (varint maximum or a failed build for values >= 2^62), other ids of the reserved form. Received payloads (all <= 2-entry payloads over 12 ids x 5 values x 2 varint forms with every truncation, 3 entries in thorough, random longer ones with duplicates, permutations and truncations; both roles): duplicate known / HTTP/2-reserved id => H3_SETTINGS_ERROR at transport and driver, truncated => a connection error, otherwise no error and the applied settings (booleans via settings(), MAX_FIELD_SECTION_SIZE via the send limit of a probe message) equal the reference interpretation; no SETTINGS => defaults.",
+         "trusted: src/reference/settings.rs, src/simnet/wire.rs; boolean settings with values other than 0/1 and repeated unknown ids are outside the statement",
+         "DESIGN.md section 3 C13"),
 }
 
 NOT_YET = "check not built yet in this session (see DESIGN.md section 5 for the construction order); no claim is made"
